@@ -61,11 +61,12 @@ def selftest_tools() -> int:
 
 
 def _verify_worker(args):
-    qualname, timeout_ms, cross = args
+    qualname, timeout_ms, cross = args[:3]
+    chunk = args[3] if len(args) > 3 else None
     try:
         import contracts.all  # noqa
         from pyvc import verify
-        return verify.verify_function(qualname, timeout_ms, cross).to_json()
+        return verify.verify_function(qualname, timeout_ms, cross, chunk=chunk).to_json()
     except Exception as e:  # noqa
         return {"function": qualname, "status": "error", "reason": f"{type(e).__name__}: {e}\n{traceback.format_exc()[-2000:]}",
                 "results": [], "assumed_used": [], "dropped": [], "vacuity": {}, "info": None, "variants": 0, "paths": 0}
@@ -81,6 +82,27 @@ def _lemma_worker(args):
     except Exception as e:  # noqa
         return {"obligation": f"lemma:{name}", "status": "error", "backend": "-", "seconds": 0, "kind": "lemma",
                 "detail": f"{type(e).__name__}: {e}\n{traceback.format_exc()[-1500:]}", "line": None}
+
+
+def merge_reports(reps):
+    """reports of the variant chunks of one function are merged into one"""
+    out, by = [], {}
+    for r in reps:
+        if r["function"] not in by:
+            by[r["function"]] = r
+            out.append(r)
+            continue
+        m = by[r["function"]]
+        m["results"] += r["results"]
+        m["paths"] = (m.get("paths") or 0) + (r.get("paths") or 0)
+        m["vacuity"].update(r.get("vacuity", {}))
+        m["assumed_used"] = sorted(set(m["assumed_used"]) | set(r["assumed_used"]))
+        m["dropped"] = sorted(set(m["dropped"]) | set(r["dropped"]))
+        if r["status"] != "ok" and m["status"] == "ok":
+            m["status"], m["reason"] = r["status"], r["reason"]
+        if m["status"] == "error" and m["reason"] == "zero obligations generated" and r["status"] == "ok":
+            m["status"], m["reason"] = "ok", ""
+    return out
 
 
 def run_oracle(pid, tier, seed, focus=None, max_seconds=None):
@@ -129,9 +151,18 @@ def check_property(pid: str, tier: str) -> int:
     lemmas = list(P.get("lemmas", []))
     nproc = min(16, max(1, len(funcs) + len(lemmas)))
     with mp.get_context("fork").Pool(nproc) as pool:
-        fa = pool.map_async(_verify_worker, [(f, timeout_ms, cross) for f in funcs], chunksize=1)
+        from pyvc import verify as _v
+        tasks = []
+        for f in funcs:
+            try:
+                nv = _v.n_variants(f)
+            except Exception:  # noqa
+                nv = 1
+            k = min(8, max(1, nv // 4))
+            tasks += [(f, timeout_ms, cross, (i, k)) for i in range(k)] if k > 1 else [(f, timeout_ms, cross)]
+        fa = pool.map_async(_verify_worker, tasks, chunksize=1)
         la = pool.map_async(_lemma_worker, [(l, timeout_ms, cross) for l in lemmas], chunksize=1)
-        freps = fa.get()
+        freps = merge_reports(fa.get())
         lres = la.get()
     # the bounded stand-in runs after the solver pool (solver verdicts must not depend on machine load)
     oracle = None
